@@ -58,32 +58,38 @@ Lemma forallb_ext' {A} (f g : A -> bool) l : (forall x, f x = g x) -> forallb f 
 Proof. intros H. induction l as [|x l IH]; cbn; [reflexivity|]. rewrite H, IH. reflexivity. Qed.
 
 (** valuation depends on the state only through the prices, and on coins only inside the range *)
-Lemma mkt_price e s s' d : price s' = price s -> mkt e s' d = mkt e s d.
-Proof. intros H. unfold mkt. rewrite H. reflexivity. Qed.
+(* two states value coins alike when they agree on prices and on the money-market store *)
+Definition same_val (s s' : state) : Prop := price s' = price s /\ mkts s' = mkts s.
+Lemma same_val_refl s : same_val s s. Proof. split; reflexivity. Qed.
+Lemma same_val_trans a b c : same_val a b -> same_val b c -> same_val a c.
+Proof. intros [A1 A2] [B1 B2]. split; congruence. Qed.
+Lemma mkt_price e s s' d : same_val s s' -> mkt e s' d = mkt e s d.
+Proof. intros [H1 H2]. unfold mkt. rewrite H1, H2. reflexivity. Qed.
 
-Lemma all_priced_ext e s s' c c' : price s' = price s -> ceq (nd e) c c' ->
+Lemma all_priced_ext e s s' c c' : same_val s s' -> ceq (nd e) c c' ->
   all_priced e s' c' = all_priced e s c.
 Proof.
   intros Hp Hc. unfold all_priced. rewrite <- (denoms_ext _ _ _ Hc).
   apply forallb_ext'. intros d. rewrite (mkt_price _ _ _ _ Hp). reflexivity.
 Qed.
 
-Lemma value_of_ext e s s' c c' : price s' = price s -> ceq (nd e) c c' ->
+Lemma value_of_ext e s s' c c' : same_val s s' -> ceq (nd e) c c' ->
   value_of e s' c' = value_of e s c.
 Proof.
   intros Hp Hc. unfold value_of, sum_over. rewrite <- (denoms_ext _ _ _ Hc). f_equal.
   apply map_ext_denoms. intros d Hd _. unfold usd_d. rewrite (mkt_price _ _ _ _ Hp), (Hc d Hd). reflexivity.
 Qed.
 
-Lemma borrowable_of_ext e s s' c c' : price s' = price s -> ceq (nd e) c c' ->
+Lemma borrowable_of_ext e s s' c c' : same_val s s' -> ceq (nd e) c c' ->
   borrowable_of e s' c' = borrowable_of e s c.
 Proof.
   intros Hp Hc. unfold borrowable_of, sum_over. rewrite <- (denoms_ext _ _ _ Hc). f_equal.
-  apply map_ext_denoms. intros d Hd _. unfold usd_d. rewrite (mkt_price _ _ _ _ Hp), (Hc d Hd). reflexivity.
+  apply map_ext_denoms. intros d Hd _. unfold usd_d, ltv_d. rewrite (mkt_price _ _ _ _ Hp), (Hc d Hd).
+  destruct Hp as [_ ->]. reflexivity.
 Qed.
 
 Lemma within_ltv_ext e s s' dp dp' bw bw' :
-  price s' = price s -> ceq (nd e) dp dp' -> ceq (nd e) bw bw' ->
+  same_val s s' -> ceq (nd e) dp dp' -> ceq (nd e) bw bw' ->
   within_ltv e s' dp' bw' = within_ltv e s dp bw.
 Proof.
   intros Hp Hd Hb. unfold within_ltv.
@@ -102,7 +108,7 @@ Qed.
 
 (** ** frame properties of the interest sync *)
 Lemma sync_supply_frame e s u s' : sync_supply e s u = Ok s' tt ->
-  bal s' = bal s /\ price s' = price s /\ bor s' = bor s /\ sfac s' = sfac s /\ bfac s' = bfac s /\
+  bal s' = bal s /\ same_val s s' /\ bor s' = bor s /\ sfac s' = sfac s /\ bfac s' = bfac s /\
   prev s' = prev s /\ tsup s' = tsup s /\ tbor s' = tbor s /\ tres s' = tres s /\
   (forall v, v <> u -> dep s' v = dep s v) /\
   (dep s u = None -> dep s' u = None) /\ (dep s u <> None -> dep s' u <> None).
@@ -117,7 +123,7 @@ Proof.
 Qed.
 
 Lemma sync_borrow_frame e s u s' : sync_borrow e s u = Ok s' tt ->
-  bal s' = bal s /\ price s' = price s /\ dep s' = dep s /\ sfac s' = sfac s /\ bfac s' = bfac s /\
+  bal s' = bal s /\ same_val s s' /\ dep s' = dep s /\ sfac s' = sfac s /\ bfac s' = bfac s /\
   prev s' = prev s /\ tsup s' = tsup s /\ tbor s' = tbor s /\ tres s' = tres s /\
   (forall v, v <> u -> bor s' v = bor s v) /\
   (bor s u = None -> bor s' u = None) /\ (bor s u <> None -> bor s' u <> None).
@@ -148,7 +154,7 @@ Lemma withdraw_spec e s u c s' : withdraw e s u c = Ok s' tt ->
     sync_position e s u = Ok s2 tt /\ dep s2 u = Some r /\
     let moved := capped e c (amt r) in
     within_ltv e s2 (csub (amt r) moved) (amt_of (bor s2 u)) = Some true /\
-    price s' = price s2 /\ bor s' = bor s2 /\
+    same_val s2 s' /\ bor s' = bor s2 /\
     ceq (nd e) (amt_of (dep s' u)) (csub (amt r) moved) /\
     (forall v, v <> u -> dep s' v = dep s v) /\ (forall v, v <> u -> bor s' v = bor s v) /\
     can_pay (nd e) s2 (hacc e) moved = true /\
@@ -222,13 +228,13 @@ Qed.
 (** ** liquidation *)
 (* what seizing may change: bank balances and the supplied/borrowed totals *)
 Definition same_store (s s' : state) : Prop :=
-  price s' = price s /\ dep s' = dep s /\ bor s' = bor s /\ sfac s' = sfac s /\ bfac s' = bfac s /\
-  prev s' = prev s /\ tres s' = tres s.
+  same_val s s' /\ dep s' = dep s /\ bor s' = bor s /\ sfac s' = sfac s /\ bfac s' = bfac s /\
+  prev s' = prev s /\ tres s' = tres s /\ params s' = params s.
 
 Lemma same_store_refl s : same_store s s.
 Proof. repeat split. Qed.
 Lemma same_store_trans s1 s2 s3 : same_store s1 s2 -> same_store s2 s3 -> same_store s1 s3.
-Proof. unfold same_store. intros (A1&A2&A3&A4&A5&A6&A7) (B1&B2&B3&B4&B5&B6&B7). repeat split; congruence. Qed.
+Proof. unfold same_store. intros ([A1 A1']&A2&A3&A4&A5&A6&A7&A8) ([B1 B1']&B2&B3&B4&B5&B6&B7&B8). repeat split; congruence. Qed.
 
 Lemma bsend_store n s f t c s' : bsend n s f t c = Ok s' tt -> same_store s s'.
 Proof. intros H. apply bsend_ok in H. destruct H as [_ ->]. repeat split. Qed.
@@ -317,7 +323,7 @@ Lemma seize_store e s k b dp bw s' : seize e s k b dp bw = Ok s' tt -> same_stor
 Proof.
   unfold seize. intros H. inv_bind H as s1 E1. inv_bind H as u1 G1.
   assert (A : same_store s s1).
-  { destruct (cempty (nd e) (keeper_reward e dp)); [apply ret_ok in E1; subst; apply same_store_refl|].
+  { destruct (cempty (nd e) (keeper_reward s dp)); [apply ret_ok in E1; subst; apply same_store_refl|].
     inv_bind E1 as s0 E0. eapply same_store_trans; [eapply dec_supplied_store; eauto|eapply bsend_store; eauto]. }
   match type of H with (if ?c then _ else _) = _ => destruct c end.
   - apply ret_ok in H. subst. exact A.
@@ -331,7 +337,7 @@ Lemma liquidate_spec e s k b s' : liquidate e s k b = Ok s' tt ->
     seize e s2 k b (amt dp) (amt bw) = Ok s3 tt /\
     dep s' b = None /\ bor s' b = None /\
     (forall v, v <> b -> dep s' v = dep s v /\ bor s' v = bor s v) /\
-    bal s' = bal s3 /\ bal s2 = bal s /\ price s' = price s.
+    bal s' = bal s3 /\ bal s2 = bal s /\ same_val s s'.
 Proof.
   unfold liquidate. intros H.
   inv_bind H as u1 G1. inv_bind H as u2 G2. inv_bind H as u3 G3. inv_bind H as u4 G4.
@@ -350,8 +356,9 @@ Proof.
   - unfold upd. destruct (Nat.eqb_spec v b); [contradiction|]. rewrite P2, S10, B3 by assumption. reflexivity.
   - unfold upd. destruct (Nat.eqb_spec v b); [contradiction|]. rewrite P3, S3. apply B10. assumption.
   - congruence.
-  - congruence.
-  - congruence.
+  - unfold same_val in *. destruct B2, S2, P1. congruence.
+  - unfold same_val in *. destruct B2, S2, P1. congruence.
+  - unfold same_val in *. destruct B2, S2, P1. congruence.
 Qed.
 
 (** *** how much leaves the module during a liquidation *)
@@ -474,30 +481,30 @@ Proof.
   - intros x d Hx1 Hx2 Hx3. rewrite R2, I2 by assumption. reflexivity.
 Qed.
 
-Lemma keeper_reward_bounds e dp d : 0 <= keeper_reward e dp d.
+Lemma keeper_reward_bounds s dp d : 0 <= keeper_reward s dp d.
 Proof. unfold keeper_reward. destruct (0 <? _) eqn:E; [apply Z.ltb_lt in E; lia|lia]. Qed.
 
 Lemma seize_scope e s k b dp bw s' : seize e s k b dp bw = Ok s' tt -> k <> hacc e ->
   (forall d, (d < nd e)%nat -> bal s (hacc e) d - bal s' (hacc e) d <= dp d) /\
   (forall x d, x <> hacc e -> x <> aacc e -> x <> b -> x <> k -> bal s' x d = bal s x d) /\
-  (k <> aacc e -> k <> b -> forall d, (d < nd e)%nat -> bal s' k d = bal s k d + keeper_reward e dp d).
+  (k <> aacc e -> k <> b -> forall d, (d < nd e)%nat -> bal s' k d = bal s k d + keeper_reward s dp d).
 Proof.
   unfold seize. intros H Hk. inv_bind H as s1 E1. inv_bind H as u1 G1.
   apply panic_unless_ok in G1. apply negb_true_iff in G1.
-  assert (Hpos : forall d, (d < nd e)%nat -> 0 <= csub dp (keeper_reward e dp) d).
-  { intros d Hd. unfold cany_neg in G1. destruct (Z.ltb_spec (csub dp (keeper_reward e dp) d) 0) as [Hlt|]; [|lia].
-    exfalso. assert (existsb (fun d0 => csub dp (keeper_reward e dp) d0 <? 0) (seq 0 (nd e)) = true).
+  assert (Hpos : forall d, (d < nd e)%nat -> 0 <= csub dp (keeper_reward s dp) d).
+  { intros d Hd. unfold cany_neg in G1. destruct (Z.ltb_spec (csub dp (keeper_reward s dp) d) 0) as [Hlt|]; [|lia].
+    exfalso. assert (existsb (fun d0 => csub dp (keeper_reward s dp) d0 <? 0) (seq 0 (nd e)) = true).
     { apply existsb_exists. exists d. split; [apply in_seq; lia|apply Z.ltb_lt; lia]. } congruence. }
   assert (A : forall x d, (d < nd e)%nat ->
-              bal s1 x d = bal s x d - (if Nat.eqb x (hacc e) then keeper_reward e dp d else 0)
-                                     + (if Nat.eqb x k then keeper_reward e dp d else 0)).
-  { intros x d Hd. destruct (cempty (nd e) (keeper_reward e dp)) eqn:Ec.
+              bal s1 x d = bal s x d - (if Nat.eqb x (hacc e) then keeper_reward s dp d else 0)
+                                     + (if Nat.eqb x k then keeper_reward s dp d else 0)).
+  { intros x d Hd. destruct (cempty (nd e) (keeper_reward s dp)) eqn:Ec.
     - apply ret_ok in E1. subst s1. apply cempty_spec in Ec. rewrite (Ec d Hd). unfold czero.
       destruct (Nat.eqb x (hacc e)); destruct (Nat.eqb x k); lia.
     - inv_bind E1 as sx Ex. apply dec_supplied_ok in Ex. apply bsend_ok in E1. destruct E1 as [_ ->]. subst sx.
       rewrite bal_move. reflexivity. }
   assert (A' : forall x d, x <> hacc e -> x <> k -> bal s1 x d = bal s x d).
-  { intros x d Hx1 Hx2. destruct (cempty (nd e) (keeper_reward e dp)) eqn:Ec.
+  { intros x d Hx1 Hx2. destruct (cempty (nd e) (keeper_reward s dp)) eqn:Ec.
     - apply ret_ok in E1. subst s1. reflexivity.
     - inv_bind E1 as sx Ex. apply dec_supplied_ok in Ex. apply bsend_ok in E1. destruct E1 as [_ ->]. subst sx.
       rewrite bal_move. destruct (Nat.eqb_spec x (hacc e)); [contradiction|]. destruct (Nat.eqb_spec x k); [contradiction|]. cbn. lia. }
@@ -538,7 +545,7 @@ Lemma borrow_spec e s u c s' : borrow e s u c = Ok s' tt ->
     all_priced e s2 c = true /\ all_priced e s2 (amt dp) = true /\ all_priced e s2 (amt_of (bor s2 u)) = true /\
     value_of e s2 c + value_of e s2 (amt_of (bor s2 u)) <= borrowable_of e s2 (amt dp) /\
     within_ltv e s2 (amt dp) (cadd (amt_of (bor s2 u)) c) = Some true /\
-    price s' = price s2 /\ dep s' = dep s2 /\
+    same_val s2 s' /\ dep s' = dep s2 /\
     ceq (nd e) (amt_of (bor s' u)) (cadd (amt_of (bor s2 u)) c) /\
     (forall v, v <> u -> dep s' v = dep s v /\ bor s' v = bor s v) /\
     bal s' = bal (move s2 (hacc e) u c) /\ bal s2 = bal s.
@@ -702,7 +709,7 @@ Proof.
       + exists bf. split; [reflexivity|]. unfold bf. rewrite E. lia.
       + exists x. split; [assumption|lia].
     - intros d' x. unfold upd. destruct (Nat.eqb_spec d' d); [intros E; inversion E; subst; assumption|apply Hn]. }
-  destruct (mm e d) as [m|]; [|discriminate].
+  cbn [mkts set_sfac set_bfac] in H. destruct (mkts s d) as [m|]; [|discriminate].
   inv_bind H as apy E1. inv_bind H as u1 G1.
   match type of H with (if ?c then _ else _) = _ => destruct c end.
   - apply ret_ok in H. subst s'. cbn. tauto.
@@ -716,20 +723,52 @@ Proof.
       * apply Hn.
 Qed.
 
+(* the begin blocker as two folds: an invariant of the accruals that does not depend on the
+   money-market store is an invariant of the whole begin block *)
+Lemma apply_param_market_bind e t fs acc d :
+  apply_param_market e t fs acc d = bind acc (fun s => apply_param_market e t fs (ret s) d).
+Proof. destruct acc as [a []| |]; reflexivity. Qed.
+Lemma drop_removed_market_bind e t fs acc d :
+  drop_removed_market e t fs acc d = bind acc (fun s => drop_removed_market e t fs (ret s) d).
+Proof. destruct acc as [a []| |]; reflexivity. Qed.
+
+Lemma begin_block_inv (P : state -> Prop) e s t fs s' :
+  (forall s0 d s1, (d < nd e)%nat -> accrue e s0 d t (nthZ fs d) = Ok s1 tt -> P s0 -> P s1) ->
+  (forall s0 m, P s0 -> P (set_mkts s0 m)) ->
+  begin_block e s t fs = Ok s' tt -> P s -> P s'.
+Proof.
+  intros Hacc Hset H P0. unfold begin_block in H.
+  destruct (fold_left (apply_param_market e t fs) (seq 0 (nd e)) (ret s)) as [s1 []| |] eqn:F1.
+  2,3: exfalso; match type of H with match ?x with _ => _ end = _ => destruct x as [s2 []| |] eqn:F2 end; try discriminate;
+       eapply (fold_not_ok _ _ _ _ (drop_removed_market_bind e t fs)); [|exact F2]; discriminate.
+  match type of H with match ?x with _ => _ end = _ => destruct x as [s2 []| |] eqn:F2 end; try discriminate.
+  apply ret_ok in H. subst s2.
+  assert (P1 : P s1).
+  { refine (fold_bind_inv_in P _ _ _ (apply_param_market_bind e t fs) _ _ _ F1 P0).
+    intros a d a2 Hin Pa G. apply in_seq in Hin. unfold apply_param_market in G. cbn [bind ret] in G.
+    destruct (params a d) as [pm|]; [|apply ret_ok in G; subst; exact Pa].
+    inv_bind G as a1 E. apply ret_ok in G.
+    assert (Pa1 : P a1).
+    { eapply Hacc; [|exact E|]; [lia|]. destruct (mkts a d); [exact Pa|apply Hset, Pa]. }
+    subst a2. destruct (market_eqb _ pm); [exact Pa1|apply Hset, Pa1]. }
+  refine (fold_bind_inv_in P _ _ _ (drop_removed_market_bind e t fs) _ _ _ F2 P1).
+  intros a d a2 Hin Pa G. apply in_seq in Hin. unfold drop_removed_market in G. cbn [bind ret] in G.
+  destruct (mkts a d) as [m|]; [|apply ret_ok in G; subst; exact Pa].
+  destruct (params a d); [apply ret_ok in G; subst; exact Pa|].
+  inv_bind G as a1 E. apply ret_ok in G. subst a2. apply Hset. eapply Hacc; [|exact E|exact Pa]. lia.
+Qed.
+
 Lemma begin_block_borrow_side e s t fs s' : begin_block e s t fs = Ok s' tt ->
   (forall d, (d < nd e)%nat -> PREC <= nthZ fs d) -> fac_nonneg (bfac s) ->
   dep s' = dep s /\ bor s' = bor s /\ fac_mono (bfac s) (bfac s') /\ fac_nonneg (bfac s').
 Proof.
-  unfold begin_block. intros H Hf Hn.
-  match type of H with match ?x with _ => _ end = _ => destruct x as [s1 []| |] eqn:F end; try discriminate.
-  apply ret_ok in H. subst s1.
-  refine (fold_bind_inv_in (fun x => dep x = dep s /\ bor x = bor s /\ fac_mono (bfac s) (bfac x) /\ fac_nonneg (bfac x))
-            _ (fun s0 d => accrue e s0 d t (nthZ fs d)) _ _ _ _ _ F _).
-  - intros acc b. reflexivity.
-  - intros a b a2 Hin (P1 & P2 & P3 & P4) G.
-    assert (Hb : (b < nd e)%nat) by (apply filter_In in Hin; destruct Hin as [Hin _]; apply in_seq in Hin; lia).
+  intros H Hf Hn.
+  refine (begin_block_inv (fun x => dep x = dep s /\ bor x = bor s /\ fac_mono (bfac s) (bfac x) /\ fac_nonneg (bfac x))
+            e s t fs s' _ _ H _).
+  - intros a b a2 Hb G (P1 & P2 & P3 & P4).
     destruct (accrue_borrow_side _ _ _ _ _ _ G (Hf b Hb) P4) as (Q1 & Q2 & Q3 & Q4).
     split; [congruence|]. split; [congruence|]. split; [eapply fac_mono_trans; eauto|assumption].
+  - intros s0 m Q. exact Q.
   - repeat split; auto using fac_mono_refl.
 Qed.
 
@@ -773,7 +812,7 @@ Proof.
       + exists sf. split; [reflexivity|]. unfold sf. rewrite E. lia.
       + exists x. split; [assumption|lia].
     - intros d' x. unfold upd. destruct (Nat.eqb_spec d' d); [intros E; inversion E; subst; assumption|apply Hn]. }
-  destruct (mm e d) as [m|] eqn:Em; [|discriminate].
+  cbn [mkts set_sfac set_bfac] in H. destruct (mkts s d) as [m|] eqn:Em; [|discriminate].
   inv_bind H as apy E1. inv_bind H as u1 G1.
   match type of H with (if ?c then _ else _) = _ => destruct c end.
   - apply ret_ok in H. subst s'. cbn. tauto.
@@ -800,16 +839,13 @@ Theorem interest_monotone_supply e s t fs s' u r c :
 Proof.
   intros H Hn Hd Ha Hs Hc.
   assert (X : dep s' = dep s /\ fac_mono (sfac s) (sfac s')).
-  { unfold begin_block in H.
-    match type of H with match ?x with _ => _ end = _ => destruct x as [s1 []| |] eqn:F end; try discriminate.
-    apply ret_ok in H. subst s1.
-    enough (Y : dep s' = dep s /\ bor s' = bor s /\ fac_mono (sfac s) (sfac s') /\ fac_nonneg (sfac s')) by tauto.
-    refine (fold_bind_inv (fun x => dep x = dep s /\ bor x = bor s /\ fac_mono (sfac s) (sfac x) /\ fac_nonneg (sfac x))
-              _ (fun s0 d => accrue e s0 d t (nthZ fs d)) _ _ _ _ _ F _).
-    - intros acc b. reflexivity.
-    - intros a b a2 (P1 & P2 & P3 & P4) G.
+  { enough (Y : dep s' = dep s /\ bor s' = bor s /\ fac_mono (sfac s) (sfac s') /\ fac_nonneg (sfac s')) by tauto.
+    refine (begin_block_inv (fun x => dep x = dep s /\ bor x = bor s /\ fac_mono (sfac s) (sfac x) /\ fac_nonneg (sfac x))
+              e s t fs s' _ _ H _).
+    - intros a b a2 Hb G (P1 & P2 & P3 & P4).
       destruct (accrue_supply_side _ _ _ _ _ _ G P4) as (Q1 & Q2 & Q3 & Q4).
       split; [congruence|]. split; [congruence|]. split; [eapply fac_mono_trans; eauto|tauto].
+    - intros s0 m Q. exact Q.
     - repeat split; auto using fac_mono_refl. }
   destruct X as [D M].
   unfold synced_deposit in *. rewrite D, Hd in *. inversion Hc as [Hc']; clear Hc.
@@ -818,11 +854,11 @@ Proof.
 Qed.
 
 (** ** assembled statements used by Properties/C08.v *)
-Lemma sync_position_bal e s u s2 : sync_position e s u = Ok s2 tt -> bal s2 = bal s /\ price s2 = price s.
+Lemma sync_position_bal e s u s2 : sync_position e s u = Ok s2 tt -> bal s2 = bal s /\ same_val s s2.
 Proof.
   unfold sync_position. intros H. inv_bind H as s1 E1.
   destruct (sync_borrow_frame _ _ _ _ E1) as (B1 & B2 & _). destruct (sync_supply_frame _ _ _ _ H) as (S1 & S2 & _).
-  split; congruence.
+  split; [congruence|eapply same_val_trans; eauto].
 Qed.
 
 Lemma liq_only_unsafe e s k b s' : liquidate e s k b = Ok s' tt ->
@@ -843,9 +879,9 @@ Proof.
   rewrite H2 in G2. rewrite H3 in G3. inversion G2; inversion G3; subst. congruence.
 Qed.
 
-Lemma keeper_reward_share e dp d :
-  keeper_reward e dp d = Z.max 0 (dec_trunc_int (dec_mul_int (keeper_pct e d) (dp d))).
-Proof. unfold keeper_reward. destruct (Z.ltb_spec 0 (dec_trunc_int (dec_mul_int (keeper_pct e d) (dp d)))); lia. Qed.
+Lemma keeper_reward_share s dp d :
+  keeper_reward s dp d = Z.max 0 (dec_trunc_int (dec_mul_int (keeper_pct s d) (dp d))).
+Proof. unfold keeper_reward. destruct (Z.ltb_spec 0 (dec_trunc_int (dec_mul_int (keeper_pct s d) (dp d)))); lia. Qed.
 
 Lemma liq_scope e s k b s' : liquidate e s k b = Ok s' tt -> k <> hacc e ->
   exists s2 dp, sync_position e s b = Ok s2 tt /\ dep s2 b = Some dp /\
@@ -856,7 +892,7 @@ Lemma liq_scope e s k b s' : liquidate e s k b = Ok s' tt -> k <> hacc e ->
     (forall d, (d < nd e)%nat -> bal s (hacc e) d - bal s' (hacc e) d <= amt dp d) /\
     (* the keeper receives exactly the configured share of the deposit, rounded down *)
     (k <> aacc e -> k <> b -> forall d, (d < nd e)%nat ->
-       bal s' k d = bal s k d + Z.max 0 (dec_trunc_int (dec_mul_int (keeper_pct e d) (amt dp d)))) /\
+       bal s' k d = bal s k d + Z.max 0 (dec_trunc_int (dec_mul_int (keeper_pct s2 d) (amt dp d)))) /\
     (* accounts other than the module, the auction account, the borrower and the keeper are untouched *)
     (forall x d, x <> hacc e -> x <> aacc e -> x <> b -> x <> k -> bal s' x d = bal s x d).
 Proof.
@@ -922,8 +958,8 @@ Proof.
   destruct (u <=? m_kink m); eexists; reflexivity.
 Qed.
 
-Definition env_wf (e : env) : Prop :=
-  forall d m, mm e d = Some m -> 0 <= m_reserve m <= PREC.
+Definition mk_wf (f : nat -> option market) : Prop :=
+  forall d m, f d = Some m -> 0 <= m_reserve m <= PREC.
 
 Lemma reserve_share_le i rf : 0 <= i -> 0 <= rf <= PREC ->
   0 <= dec_trunc_int (dec_mul (dec_of_int i) rf) <= i.
@@ -949,50 +985,209 @@ Proof.
   lia.
 Qed.
 
-Lemma accrue_no_panic e s d t f : env_wf e -> mm e d <> None -> PREC <= f -> (forall x, 0 <= tbor s x) ->
-  exists s', accrue e s d t f = Ok s' tt /\ forall x, 0 <= tbor s' x.
+Lemma accrue_no_panic e s d t f : mk_wf (mkts s) -> mkts s d <> None -> PREC <= f -> (forall x, 0 <= tbor s x) ->
+  exists s', accrue e s d t f = Ok s' tt /\ (forall x, 0 <= tbor s' x) /\ mkts s' = mkts s /\ params s' = params s.
 Proof.
   intros Hwf Hm Hf Hb. unfold accrue.
-  destruct (prev s d) as [p|]; [|eexists; split; [reflexivity|exact Hb]].
-  destruct (t - p =? 0); [eexists; split; [reflexivity|exact Hb]|].
-  destruct (tbor s d =? 0); [eexists; split; [reflexivity|exact Hb]|].
-  destruct (mm e d) as [m|] eqn:Em; [|congruence].
-  destruct (borrow_rate_total m (dec_of_int (bal s (hacc e) d)) (dec_of_int (tbor s d)) (dec_of_int (tres s d))) as [apy ->].
+  destruct (prev s d) as [p|]; [|eexists; split; [reflexivity|auto]].
+  destruct (t - p =? 0); [eexists; split; [reflexivity|auto]|].
+  destruct (tbor s d =? 0); [eexists; split; [reflexivity|auto]|].
+  cbn [mkts set_sfac set_bfac].
+  destruct (mkts s d) as [m|] eqn:Em; [|congruence].
+  destruct (borrow_rate_total m (dec_of_int (bal s (hacc e) d)) (dec_of_int (tbor s d)) (dec_of_int (tres s d))) as [apy Ea].
+  cbn [bal set_sfac set_bfac tbor tres]. rewrite Ea.
   cbn [bind]. assert (Hf0 : (0 <=? f) = true) by (apply Z.leb_le; unfold PREC in *; lia). rewrite Hf0. cbn [err_unless bind ret].
   pose proof (interest_nonneg f (tbor s d) Hf (Hb d)) as Hi.
   set (interest := dec_trunc_int (dec_mul f (dec_of_int (tbor s d))) - tbor s d) in *.
-  destruct ((interest =? 0) && (0 <? apy)); [eexists; split; [reflexivity|exact Hb]|].
+  destruct ((interest =? 0) && (0 <? apy)); [eexists; split; [reflexivity|auto]|].
   pose proof (reserve_share_le interest (m_reserve m) Hi (Hwf d m Em)) as Hr.
   set (rnew := dec_trunc_int (dec_mul (dec_of_int interest) (m_reserve m))) in *.
   assert (E1 : (0 <=? interest) = true) by (apply Z.leb_le; lia).
   assert (E2 : (0 <=? interest - rnew) = true) by (apply Z.leb_le; lia).
   assert (E3 : (0 <=? rnew) = true) by (apply Z.leb_le; lia).
   rewrite E1, E2, E3. cbn [panic_unless bind ret].
-  eexists. split; [reflexivity|]. intros x. cbn. unfold cadd. rewrite csingle_eq. specialize (Hb x).
+  eexists. split; [reflexivity|]. split; [|split; reflexivity]. intros x. cbn. unfold cadd. rewrite csingle_eq. specialize (Hb x).
   destruct (Nat.eqb x d); lia.
 Qed.
 
-Lemma accrue_fold_no_panic e t fs l : env_wf e ->
-  (forall d, In d l -> mm e d <> None /\ PREC <= nthZ fs d) ->
-  forall s, (forall x, 0 <= tbor s x) ->
-  exists s', fold_left (fun acc d => s <- acc ;; accrue e s d t (nthZ fs d)) l (ret s) = Ok s' tt.
+Definition bb_ok (s : state) : Prop :=
+  mk_wf (mkts s) /\ mk_wf (params s) /\ forall x, 0 <= tbor s x.
+
+Lemma mk_wf_upd f d m : mk_wf f -> 0 <= m_reserve m <= PREC -> mk_wf (upd f d (Some m)).
+Proof. intros H Hm d' m'. unfold upd. destruct (Nat.eqb d' d); [intros E; inversion E; subst; assumption|apply H]. Qed.
+Lemma mk_wf_del f d : mk_wf f -> mk_wf (upd f d None).
+Proof. intros H d' m'. unfold upd. destruct (Nat.eqb d' d); [discriminate|apply H]. Qed.
+
+Lemma apply_param_market_no_panic e t fs s d : bb_ok s -> PREC <= nthZ fs d ->
+  exists s', apply_param_market e t fs (ret s) d = Ok s' tt /\ bb_ok s'.
 Proof.
-  intros Hwf. induction l as [|d l IH]; intros Hl s Hb; cbn [fold_left].
-  - eexists; reflexivity.
-  - destruct (Hl d (or_introl eq_refl)) as [Hm Hf].
-    destruct (accrue_no_panic e s d t (nthZ fs d) Hwf Hm Hf Hb) as (s1 & E & Hb1).
-    cbn [bind ret]. rewrite E. apply IH; [intros x Hx; apply Hl; right; exact Hx|exact Hb1].
+  intros (W1 & W2 & Hb) Hf. unfold apply_param_market. cbn [bind ret].
+  destruct (params s d) as [pm|] eqn:Ep; [|eexists; split; [reflexivity|exact (conj W1 (conj W2 Hb))]].
+  set (s0 := match mkts s d with Some _ => s | None => set_mkts s (upd (mkts s) d (Some pm)) end).
+  assert (B0 : bb_ok s0 /\ mkts s0 d <> None /\ params s0 = params s).
+  { unfold s0. destruct (mkts s d) eqn:Em.
+    - split; [exact (conj W1 (conj W2 Hb))|]. split; [congruence|reflexivity].
+    - split; [split; [cbn; apply mk_wf_upd; [assumption|eapply W2; eauto]|split; assumption]|].
+      split; [cbn; unfold upd; rewrite Nat.eqb_refl; discriminate|reflexivity]. }
+  destruct B0 as ((V1 & V2 & Vb) & Hm & Hp).
+  destruct (accrue_no_panic e s0 d t (nthZ fs d) V1 Hm Hf Vb) as (s1 & E & Hb1 & M1 & Q1).
+  rewrite E. cbn [bind ret]. eexists. split; [reflexivity|].
+  destruct (market_eqb _ pm).
+  - split; [rewrite M1; assumption|]. split; [rewrite Q1, Hp; assumption|assumption].
+  - split; [cbn; apply mk_wf_upd; [rewrite M1; assumption|eapply W2; eauto]|]. split; [cbn; rewrite Q1, Hp; assumption|assumption].
 Qed.
 
-Theorem begin_block_no_panic e s t fs : env_wf e ->
+Lemma drop_removed_market_no_panic e t fs s d : bb_ok s -> PREC <= nthZ fs d ->
+  exists s', drop_removed_market e t fs (ret s) d = Ok s' tt /\ bb_ok s'.
+Proof.
+  intros (W1 & W2 & Hb) Hf. unfold drop_removed_market. cbn [bind ret].
+  destruct (mkts s d) as [m|] eqn:Em; [|eexists; split; [reflexivity|exact (conj W1 (conj W2 Hb))]].
+  destruct (params s d); [eexists; split; [reflexivity|exact (conj W1 (conj W2 Hb))]|].
+  destruct (accrue_no_panic e s d t (nthZ fs d) W1 ltac:(congruence) Hf Hb) as (s1 & E & Hb1 & M1 & Q1).
+  rewrite E. cbn [bind ret]. eexists. split; [reflexivity|].
+  split; [cbn; apply mk_wf_del; rewrite M1; assumption|]. split; [cbn; rewrite Q1; assumption|assumption].
+Qed.
+
+Lemma fold_no_panic {B} (f : res state -> B -> res state) (g : state -> B -> res state) (Q : B -> Prop) l :
+  (forall acc b, f acc b = bind acc (fun a => g a b)) ->
+  (forall s b, Q b -> bb_ok s -> exists s', g s b = Ok s' tt /\ bb_ok s') ->
+  (forall b, In b l -> Q b) ->
+  forall s, bb_ok s -> exists s', fold_left f l (ret s) = Ok s' tt /\ bb_ok s'.
+Proof.
+  intros Hf Hg. induction l as [|b l IH]; intros Hq s Hs; cbn [fold_left].
+  - eexists; split; [reflexivity|assumption].
+  - rewrite Hf. cbn [bind ret]. destruct (Hg s b (Hq b (or_introl eq_refl)) Hs) as (s1 & E & H1).
+    rewrite E. apply IH; [intros b' Hb'; apply Hq; right; exact Hb'|exact H1].
+Qed.
+
+Theorem begin_block_no_panic e s t fs :
+  mk_wf (mkts s) -> mk_wf (params s) ->
   (forall d, (d < nd e)%nat -> PREC <= nthZ fs d) -> (forall x, 0 <= tbor s x) ->
   exists s', begin_block e s t fs = Ok s' tt.
 Proof.
-  intros Hwf Hf Hb. unfold begin_block.
-  destruct (accrue_fold_no_panic e t fs
-              (filter (fun d => match mm e d with Some _ => true | None => false end) (seq 0 (nd e))) Hwf) with (s := s)
-    as [s' E]; [|exact Hb|].
-  - intros d Hd. apply filter_In in Hd. destruct Hd as [Hin Hm]. apply in_seq in Hin.
-    split; [destruct (mm e d); [discriminate|discriminate]|apply Hf; lia].
-  - rewrite E. eexists; reflexivity.
+  intros W1 W2 Hf Hb. unfold begin_block.
+  assert (Hq : forall b, In b (seq 0 (nd e)) -> PREC <= nthZ fs b) by (intros b Hin; apply in_seq in Hin; apply Hf; lia).
+  destruct (fold_no_panic _ _ (fun d => PREC <= nthZ fs d) (seq 0 (nd e)) (apply_param_market_bind e t fs)
+              (fun s0 b Hb0 Hs0 => apply_param_market_no_panic e t fs s0 b Hs0 Hb0) Hq s (conj W1 (conj W2 Hb))) as (s1 & E1 & B1).
+  rewrite E1.
+  destruct (fold_no_panic _ _ (fun d => PREC <= nthZ fs d) (seq 0 (nd e)) (drop_removed_market_bind e t fs)
+              (fun s0 b Hb0 Hs0 => drop_removed_market_no_panic e t fs s0 b Hs0 Hb0) Hq s1 B1) as (s2 & E2 & B2).
+  unfold ret in E2. rewrite E2. eexists; reflexivity.
+Qed.
+
+(** ** the begin blocker copies the money markets of the params into the store *)
+Lemma accrue_frame_mk e s d t f s' : accrue e s d t f = Ok s' tt -> mkts s' = mkts s /\ params s' = params s.
+Proof.
+  unfold accrue. intros H.
+  destruct (prev s d) as [p|]; [|apply ret_ok in H; subst; auto].
+  destruct (t - p =? 0); [apply ret_ok in H; subst; auto|].
+  destruct (tbor s d =? 0); [apply ret_ok in H; subst; auto|].
+  cbn [mkts set_sfac set_bfac] in H. destruct (mkts s d) as [m|]; [|discriminate].
+  inv_bind H as apy E1. inv_bind H as u1 G1.
+  match type of H with (if ?c then _ else _) = _ => destruct c end.
+  - apply ret_ok in H. subst s'. auto.
+  - inv_bind H as u2 G2. inv_bind H as u3 G3. inv_bind H as u4 G4. apply ret_ok in H. subst s'. auto.
+Qed.
+
+Lemma market_eqb_eq a b : market_eqb a b = true -> a = b.
+Proof.
+  unfold market_eqb. intros H. repeat (apply andb_prop in H; destruct H as [H ?]).
+  destruct a, b; cbn in *.
+  repeat match goal with E : (_ =? _) = true |- _ => apply Z.eqb_eq in E end.
+  match goal with E : Bool.eqb _ _ = true |- _ => apply Bool.eqb_prop in E end.
+  subst. reflexivity.
+Qed.
+
+Lemma fold_mkts_pointwise {f : res state -> nat -> res state} {g : state -> nat -> res state} (T : state -> nat -> Prop) l :
+  (forall acc b, f acc b = bind acc (fun a => g a b)) ->
+  NoDup l ->
+  (forall a b a2, g a b = Ok a2 tt ->
+     params a2 = params a /\ (forall d, d <> b -> mkts a2 d = mkts a d) /\ T a2 b) ->
+  (forall a a2 d, params a2 = params a -> mkts a2 d = mkts a d -> T a d -> T a2 d) ->
+  forall a0 a', fold_left f l (ret a0) = Ok a' tt ->
+  params a' = params a0 /\ (forall d, ~ In d l -> mkts a' d = mkts a0 d) /\ forall d, In d l -> T a' d.
+Proof.
+  intros Hf Hnd Hg Hst. induction Hnd as [|b l Hnin Hnd IH]; intros a0 a' H; cbn [fold_left] in H.
+  - apply ret_ok in H. subst. split; [reflexivity|]. split; [reflexivity|intros d []].
+  - rewrite Hf in H. cbn [bind ret] in H.
+    destruct (g a0 b) as [a1 []| |] eqn:G.
+    2,3: exfalso; eapply (fold_not_ok f g l _ Hf); [|exact H]; discriminate.
+    destruct (Hg _ _ _ G) as (P1 & M1 & T1). destruct (IH _ _ H) as (P2 & M2 & T2).
+    split; [congruence|]. split.
+    + intros d Hd. rewrite M2 by (intros Hx; apply Hd; right; exact Hx). apply M1. intros ->. apply Hd. left; reflexivity.
+    + intros d [<-|Hd]; [|apply T2, Hd]. apply (Hst a1 a' b); [assumption|apply M2, Hnin|exact T1].
+Qed.
+
+Theorem begin_block_syncs_markets e s t fs s' : begin_block e s t fs = Ok s' tt ->
+  params s' = params s /\ forall d, (d < nd e)%nat -> mkts s' d = params s d.
+Proof.
+  intros H. unfold begin_block in H.
+  destruct (fold_left (apply_param_market e t fs) (seq 0 (nd e)) (ret s)) as [s1 []| |] eqn:F1.
+  2,3: exfalso; match type of H with match ?x with _ => _ end = _ => destruct x as [s2 []| |] eqn:F2 end; try discriminate;
+       eapply (fold_not_ok _ _ _ _ (drop_removed_market_bind e t fs)); [|exact F2]; discriminate.
+  match type of H with match ?x with _ => _ end = _ => destruct x as [s2 []| |] eqn:F2 end; try discriminate.
+  apply ret_ok in H. subst s2.
+  (* first loop: every market of the params is in the store *)
+  destruct (fold_mkts_pointwise (fun a d => forall pm, params a d = Some pm -> mkts a d = Some pm) (seq 0 (nd e))
+              (apply_param_market_bind e t fs) (seq_NoDup (nd e) 0)) with (a0 := s) (a' := s1) as (A1 & A2 & A3); [| |exact F1|].
+  { intros a b a2 G. unfold apply_param_market in G. cbn [bind ret] in G.
+    destruct (params a b) as [pm|] eqn:Ep.
+    - inv_bind G as a1 E. apply ret_ok in G. destruct (accrue_frame_mk _ _ _ _ _ _ E) as [M Q].
+      assert (Q' : params a1 = params a) by (rewrite Q; destruct (mkts a b); reflexivity).
+      assert (M' : forall d, d <> b -> mkts a1 d = mkts a d).
+      { intros d Hd. rewrite M. destruct (mkts a b); [reflexivity|]. cbn. unfold upd. destruct (Nat.eqb_spec d b); [contradiction|reflexivity]. }
+      destruct (market_eqb _ pm) eqn:Eq.
+      + subst a2. split; [assumption|]. split; [assumption|]. intros pm' Hp. rewrite Q', Ep in Hp. inversion Hp; subst pm'.
+        rewrite M. apply market_eqb_eq in Eq. destruct (mkts a b) as [m|] eqn:Em.
+        * congruence.
+        * cbn. unfold upd. rewrite Nat.eqb_refl. reflexivity.
+      + subst a2. cbn. split; [assumption|]. split.
+        * intros d Hd. unfold upd. destruct (Nat.eqb_spec d b); [contradiction|apply M', Hd].
+        * intros pm' Hp. rewrite Q', Ep in Hp. inversion Hp; subst. unfold upd. rewrite Nat.eqb_refl. reflexivity.
+    - apply ret_ok in G. subst a2. split; [reflexivity|]. split; [reflexivity|]. intros pm Hp. congruence. }
+  { intros a a2 d Hp Hm T0 pm E. rewrite Hm. apply T0. rewrite <- Hp. exact E. }
+  (* second loop keeps the markets of the params ... *)
+  assert (I2 : params s' = params s1 /\ forall d, (d < nd e)%nat -> forall pm, params s' d = Some pm -> mkts s' d = Some pm).
+  { refine (fold_bind_inv (fun a => params a = params s1 /\ forall d, (d < nd e)%nat -> forall pm, params a d = Some pm -> mkts a d = Some pm)
+              _ _ _ (drop_removed_market_bind e t fs) _ _ _ F2 _).
+    - intros a b a2 [Pa Ia] G. unfold drop_removed_market in G. cbn [bind ret] in G.
+      destruct (mkts a b) as [m|] eqn:Em; [|apply ret_ok in G; subst; split; assumption].
+      destruct (params a b) eqn:Ep; [apply ret_ok in G; subst; split; assumption|].
+      inv_bind G as a1 E. apply ret_ok in G. destruct (accrue_frame_mk _ _ _ _ _ _ E) as [M Q]. subst a2. cbn.
+      split; [congruence|]. intros d Hd pm Hp. rewrite Q in Hp. unfold upd.
+      destruct (Nat.eqb_spec d b) as [->|]; [congruence|]. rewrite M. apply Ia; assumption.
+    - split; [reflexivity|]. intros d Hd pm Hp. apply A3; [apply in_seq; lia|exact Hp]. }
+  (* ... and drops the others *)
+  destruct (fold_mkts_pointwise (fun a d => params a d = None -> mkts a d = None) (seq 0 (nd e))
+              (drop_removed_market_bind e t fs) (seq_NoDup (nd e) 0)) with (a0 := s1) (a' := s') as (B1 & B2 & B3); [| |exact F2|].
+  { intros a b a2 G. unfold drop_removed_market in G. cbn [bind ret] in G.
+    destruct (mkts a b) as [m|] eqn:Em.
+    - destruct (params a b) eqn:Ep.
+      + apply ret_ok in G. subst a2. split; [reflexivity|]. split; [reflexivity|]. congruence.
+      + inv_bind G as a1 E. apply ret_ok in G. destruct (accrue_frame_mk _ _ _ _ _ _ E) as [M Q]. subst a2. cbn.
+        split; [assumption|]. split.
+        * intros d Hd. unfold upd. destruct (Nat.eqb_spec d b); [contradiction|rewrite M; reflexivity].
+        * intros _. unfold upd. rewrite Nat.eqb_refl. reflexivity.
+    - apply ret_ok in G. subst a2. split; [reflexivity|]. split; [reflexivity|]. intros _. exact Em. }
+  { intros a a2 d Hp Hm T0 E. rewrite Hm. apply T0. rewrite <- Hp. exact E. }
+  destruct I2 as [I2a I2b]. split; [congruence|].
+  intros d Hd. rewrite <- A1, <- I2a.
+  destruct (params s' d) as [pm|] eqn:Ep; [apply I2b; assumption|apply B3; [apply in_seq; lia|exact Ep]].
+Qed.
+
+Definition pct_of (o : option market) : Z := match o with Some m => m_keeper m | None => 0 end.
+
+(* once the begin blocker has run, a liquidation pays the keeper the share configured in the params *)
+Lemma keeper_reward_from_params e s0 t fs s k b s' :
+  begin_block e s0 t fs = Ok s tt -> liquidate e s k b = Ok s' tt ->
+  k <> hacc e -> k <> aacc e -> k <> b ->
+  exists s2 dp, sync_position e s b = Ok s2 tt /\ dep s2 b = Some dp /\
+    forall d, (d < nd e)%nat ->
+      bal s' k d = bal s k d + Z.max 0 (dec_trunc_int (dec_mul_int (pct_of (params s d)) (amt dp d))).
+Proof.
+  intros Hb Hl K1 K2 K3. destruct (begin_block_syncs_markets _ _ _ _ _ Hb) as [P M].
+  destruct (liq_scope _ _ _ _ _ Hl K1) as (s2 & dp & H1 & H2 & _ & _ & _ & _ & H7 & _).
+  exists s2, dp. split; [assumption|]. split; [assumption|]. intros d Hd.
+  rewrite (H7 K2 K3 d Hd). destruct (sync_position_bal _ _ _ _ H1) as [_ [_ Hm]].
+  unfold keeper_pct, pct_of. rewrite Hm, (M d Hd), P. reflexivity.
 Qed.
